@@ -44,7 +44,7 @@ contract(
     pure=True,
     frame=[],
     ensures={
-        "is-deep-copy [C17,C02]": "same(ret, deepcopy(obj))",
+        "is-deep-copy [C17,C02,C05,C08,C01]": "same(ret, deepcopy(obj))",
         "copy-equals-original [C17]": "T(eq(obj, ret))",
     },
     raises={"UsageError": {"only-when-copy-differs [C17]": "not T(eq(obj, deepcopy(obj)))"}},
